@@ -82,7 +82,12 @@ def build_sets(case):
         key = jax.random.PRNGKey(case["key"] + salt)
         k1, k2, k3 = jax.random.split(key, 3)
         if bk == "ode":
-            gen = jinns.data.DataGeneratorODE(k1, 5, 0.0, 1.0, b)
+            # set A: fresh generator, 5 points; set A': 4 points (batch size divides it), already drawn from up to the end
+            # of its first epoch, so that the next draw is a reshuffle
+            gen = jinns.data.DataGeneratorODE(k1, 5 if tag == "a" else 4, 0.0, 1.0, b)
+            if tag == "b":
+                for _ in range(2):
+                    gen, _unused = jit_of("advance", lambda g: g.get_batch())(gen)
             rows = b
         elif bk == "statio":
             gen = jinns.data.CubicMeshPDEStatio(key=k1, n=5, nb=8, omega_batch_size=b, omega_border_batch_size=1, dim=2, min_pts=(-1.0, 0.0), max_pts=(2.0, 1.0))
